@@ -116,7 +116,7 @@ theorem noColon_iff {s : String} (hs : noColon s = true) : ∀ ch ∈ s.toList, 
 theorem preC_settle {h : Hashing} {i : SyncIn} (hb : preCB h i = true) : PreC (settle i) ∧ RevPrem h (settle i) := by
   unfold preCB at hb
   simp only [Bool.and_eq_true, List.all_eq_true, decide_eq_true_eq, beq_iff_eq, bne_iff_ne, ne_eq] at hb
-  obtain ⟨⟨⟨⟨⟨⟨⟨⟨⟨⟨hspec, hpods⟩, hmax⟩, hdist⟩, hsm⟩, hsmR⟩, hsmB⟩, hnames⟩, hcol⟩, hhash⟩, hlab⟩ := hb
+  obtain ⟨⟨⟨⟨⟨⟨⟨⟨hspec, hpods⟩, hdist⟩, hsm⟩, hsmR⟩, hnames⟩, hcol⟩, hhash⟩, hlab⟩ := hb
   have hs := (specOk_iff i).1 hspec
   have hkp : KeyPerm (settle i).pods ((i.pods.filter (fun c => !c.pod.terminating)).map settleOne) := by
     rw [settle_pods]; exact keyPerm_reindex_sort _
@@ -124,7 +124,7 @@ theorem preC_settle {h : Hashing} {i : SyncIn} (hb : preCB h i = true) : PreC (s
     unfold distinctOrdsC at hdist
     apply nodup_of_eraseDups_length
     simpa using hdist
-  refine ⟨⟨⟨hs.paused, hs.sel, hs.del, hs.rep, hs.r0, hs.strat, hs.lim⟩, ?_, ?_, ?_, hsmR, hsmB, rfl, rfl, hs.del,
+  refine ⟨⟨⟨hs.paused, hs.sel, hs.del, hs.rep, hs.r0, hs.strat, hs.lim⟩, ?_, ?_, ?_, hsmR, rfl, rfl, hs.del,
     fun c hc => (settle_settled i c hc).1, noColon_iff hcol, hnames⟩, revPrem_of hhash hlab⟩
   · intro x hx
     obtain ⟨y, hy, hk⟩ := hkp.mem hx
@@ -140,7 +140,7 @@ theorem preC_settle {h : Hashing} {i : SyncIn} (hb : preCB h i = true) : PreC (s
     have e7 : (settleOne c0).pod.stOk = x.pod.stOk := key_transfer (·.pod.stOk) (fun _ => rfl) hk
     have e8 : (settleOne c0).pod.created = x.pod.created := key_transfer (·.pod.created) (fun _ => rfl) hk
     rw [← e1, ← e2, ← e3, ← e4, ← e5, ← e7, ← e8, settleOne_owner, settleOne_member, settleOne_sel, settleOne_name, settleOne_ord]
-    refine ⟨?_, a2, a3, a4, a5, hmax c0 hc0m, ?_, ?_⟩
+    refine ⟨?_, a2, a3, a4, a5, ?_, ?_⟩
     · cases hco : c0.owner with
       | self => exact Or.inl rfl
       | none => exact Or.inr rfl
@@ -172,7 +172,7 @@ theorem idPos_map_own {l : List CPod} (hl : IdPos l) : IdPos (l.map own) := by
 theorem prep_nsc {h : Hashing} {i : SyncIn} (hp : PreC (settle i)) (hr : RevPrem h (settle i)) (hroom : roomB i = true) :
     NSC h (prepW h (settle i)) := by
   obtain ⟨G, upd, cc, hpick, _⟩ := pick_of_prem hp.names hr
-  refine ⟨prepW_norm hp hpick, idPos_map_own (settle_idPos i), ?_, ?_⟩
+  refine ⟨prepW_norm hp hpick, idOk_of_idPos (idPos_map_own (settle_idPos i)) (prepW_norm hp hpick).small, ?_, ?_⟩
   · intro c hc
     have hc' : c ∈ (settle i).pods.map own := hc
     rw [List.mem_map] at hc'
